@@ -28,6 +28,8 @@ PROPS = {
     "C19": ("compiled", 8, 16), "C20": ("compiled", 8, 16),
 }
 NEEDS_BOTH = {"C20"}
+# properties quantified over the hash seed: every worker gets its own PYTHONHASHSEED
+SEED_PER_SHARD = {"C08", "C02"}
 WORKER_TIMEOUT = {"quick": 900, "thorough": 5400}
 
 
@@ -239,7 +241,8 @@ def main(argv):
                                workdir, "corpus"))
         for sh in range(nshards):
             procs.append(spawn(stage_paths, mode, dict(base, what="run", shard=sh),
-                               workdir, f"shard{sh}", hashseed=str(sh % 4)))
+                               workdir, f"shard{sh}",
+                               hashseed=str(sh if prop in SEED_PER_SHARD else sh % 4)))
         results = collect(procs, WORKER_TIMEOUT[tier])
         violations = []
         known_lines = []
